@@ -466,7 +466,7 @@ impl CertificateParams {
 	fn write_key_usage(&self, writer: DERWriter) {
 		// RFC 5280 defines 9 key usages, which we detail in our key usage enum
 		// We could use std::mem::variant_count here, but it's experimental
-		const KEY_USAGE_BITS: usize = 9;
+		const KEY_USAGE_BITS_MAX: usize = u16::BITS as usize;
 		if self.key_usages.is_empty() {
 			return;
 		}
@@ -477,7 +477,10 @@ impl CertificateParams {
 			let bit_string = self.key_usages.iter().fold(0u16, |bit_string, key_usage| {
 				bit_string | key_usage.to_u16()
 			});
-			writer.write_bitvec_bytes(&bit_string.to_be_bytes(), KEY_USAGE_BITS);
+			// DER requires named bit lists to be written without trailing zero bits
+			let bits = KEY_USAGE_BITS_MAX - bit_string.trailing_zeros() as usize;
+			let bytes = bit_string.to_be_bytes();
+			writer.write_bitvec_bytes(&bytes[..(bits + 7) / 8], bits);
 		});
 	}
 
